@@ -428,7 +428,7 @@ def report_sites(L, rule, es, repo, what, accept=None):
 
 def r2_data_path(L, repo, r1_ok):
     ci = repo.need_class("transceiver", "Transceiver")
-    es = Escape(repo, sources=("recvfrom",))
+    es = Escape(repo, sources=("recvfrom", "recv"))
     es.run(ci, "recv_data_msg")
     for f in sorted(es.visited_funcs):
         L.functions.add(f)
@@ -449,7 +449,7 @@ def r2_data_path(L, repo, r1_ok):
 
 def r3_ctrl_path(L, repo):
     ci = repo.need_class("ctrl_if_trx", "CTRLInterfaceTRX")
-    es = Escape(repo, sources=("recvfrom",))
+    es = Escape(repo, sources=("recvfrom", "recv"))
     es.run(ci, "handle_rx")
     for f in sorted(es.visited_funcs):
         L.functions.add(f)
@@ -1235,7 +1235,7 @@ def r11_clock_path(L, repo):
     leaves the thread: explicit raises and operations that are partial whatever the data (a %-format whose conversions
     do not match the values supplied) are sites; value-dependent operations on queued fields are R4's."""
     ci = repo.need_class("fake_trx", "Application")
-    es = Escape(repo, sources=("recvfrom",))
+    es = Escape(repo, sources=("recvfrom", "recv"))
     es.run(ci, "clck_handler")
     for f in sorted(es.visited_funcs):
         L.functions.add(f)
